@@ -74,7 +74,10 @@ struct View {
     key: [u8; 32],
     ctx: Vec<u8>,
     nonce: [u8; 16],
+    /// identifier passed to verify_init / used for state decoding
     id: usize,
+    /// identifier under which the input share bytes are decoded (its role)
+    dec_id: usize,
 }
 #[derive(Clone, Copy, PartialEq)]
 enum Tamper {
@@ -105,10 +108,10 @@ fn verify_report<T: Type>(vdaf: &V<T>, views: &[View], pubb: &[u8], shares: &[Ve
     };
     let public = public?;
     for (k, v) in views.iter().enumerate() {
-        let share = match Prio3InputShare::get_decoded_with_param(&(vdaf, v.id), &shares[k]) {
+        let share = match Prio3InputShare::get_decoded_with_param(&(vdaf, v.dec_id), &shares[k]) {
             Ok(s) => s,
             Err(_) => {
-                out.push(json!({"ev":"decode_fail","what":"share","j":v.id,"bytes":shares[k]}));
+                out.push(json!({"ev":"decode_fail","what":"share","j":v.dec_id,"bytes":shares[k]}));
                 all = false;
                 continue;
             }
@@ -118,13 +121,13 @@ fn verify_report<T: Type>(vdaf: &V<T>, views: &[View], pubb: &[u8], shares: &[Ve
         match r {
             Ok(Ok((st, vs))) => {
                 let (stb, vsb) = (st.get_encoded().unwrap(), vs.get_encoded().unwrap());
-                out.push(json!({"ev":"vinit","key":v.key.to_vec(),"ctx":v.ctx,"j":v.id,"nonce":v.nonce.to_vec(),"pub":pubb,"share":shares[k],
+                out.push(json!({"ev":"vinit","key":v.key.to_vec(),"ctx":v.ctx,"j":v.id,"dj":v.dec_id,"nonce":v.nonce.to_vec(),"pub":pubb,"share":shares[k],
                                 "ok":true,"vshare":vsb,"state":stb,"vs_len":vs.encoded_len(),"st_len":st.encoded_len()}));
                 states.push(stb);
                 vshares.push(vsb);
             }
             Ok(Err(_)) => {
-                out.push(json!({"ev":"vinit","key":v.key.to_vec(),"ctx":v.ctx,"j":v.id,"nonce":v.nonce.to_vec(),"pub":pubb,"share":shares[k],
+                out.push(json!({"ev":"vinit","key":v.key.to_vec(),"ctx":v.ctx,"j":v.id,"dj":v.dec_id,"nonce":v.nonce.to_vec(),"pub":pubb,"share":shares[k],
                                 "ok":false,"vshare":[],"state":[]}));
                 all = false;
             }
@@ -238,7 +241,7 @@ impl Gen {
         let nonce = self.arr::<16>();
         let cl = self.rng.below(4) as usize;
         let ctx = self.rng.bytes(cl);
-        (0..n).map(|id| View { key, ctx: ctx.clone(), nonce, id }).collect()
+        (0..n).map(|id| View { key, ctx: ctx.clone(), nonce, id, dec_id: id }).collect()
     }
 }
 
@@ -289,8 +292,9 @@ impl<T: Type> TypJr for V<T> {
 /// All scenario families for one (circuit, measurement) line.
 fn unit<F: TinyField, T: Type<Field = F> + FromSpec>(t: &T, p: u64, c: &Value, m: &Value, family: &str, g: &mut Gen, out: &mut Vec<Value>, idx: u64) {
     JR_LEN.with(|x| x.set(t.joint_rand_len()));
-    let nagg: u8 = match family { "honest" => [2, 3, 4, 2, 5][(idx % 5) as usize], _ => [2, 3][(idx % 2) as usize] };
-    let np: u8 = [1, 1, 2, 1, 3][((idx / 2) % 5) as usize];
+    let nagg: u8 = match family { "honest" => [2, 3, 4, 2, 5][(idx % 5) as usize], "wide" => [128, 254, 17, 129][(idx % 4) as usize], _ => [2, 3][(idx % 2) as usize] };
+    let np: u8 = if family == "wide" { 1 } else { [1, 1, 2, 1, 3][((idx / 2) % 5) as usize] };
+    let family = if family == "wide" { "honest" } else { family };
     let vdaf: V<T> = Prio3::new(nagg, np, ALGO, t.clone()).unwrap();
     let n = nagg as usize;
     match family {
@@ -397,14 +401,26 @@ fn unit<F: TinyField, T: Type<Field = F> + FromSpec>(t: &T, p: u64, c: &Value, m
                         if who >= n { continue; }
                         let other = (who + 1) % n;
                         vs[who].id = other;
+                        vs[who].dec_id = other;
                         sb2[who] = sb[other].clone();
                     }
                     verify_report(&vdaf, &vs, &pb, &sb2, Tamper::None, out);
                 }
             }
+            // in-memory role mismatch: the share object keeps its own role (decoded under its own
+            // identifier) but is processed under another aggregator's identifier
+            for who in 0..n {
+                for other in 0..n {
+                    if other == who { continue; }
+                    let mut vs = views.clone();
+                    vs[who].id = other;
+                    verify_report(&vdaf, &vs, &pb, &sb, Tamper::None, out);
+                }
+            }
             // out-of-range aggregator id
             let mut vs = views.clone();
             vs[n - 1].id = n;
+            vs[n - 1].dec_id = n;
             verify_report(&vdaf, &vs, &pb, &sb, Tamper::None, out);
         }
         "pair" => {
